@@ -184,3 +184,35 @@ Section V2fixed.
   Lemma reachable2_flag : forall cf st, reachable2 cf st -> orip st = false.
   Proof. intros cf st H. induction H; [reflexivity|apply turn_v2_fixed_flag; assumption]. Qed.
 End V2fixed.
+
+(* ---- the SHIPPED file (fixd = false) does not keep the invariant: after one blocked bot message
+   the flag stays set and the next LLM-generated message is uttered without any output-rail call
+   (DESIGN section 5, F3; the same conversation is replayed on the implementation by harness/c02.py) *)
+Definition f3_vf (t c : nat) (r : rail) (x : text) : verdict := if Nat.eqb t 1 then Reject else Accept.
+
+Lemma v2_flag_refuted_witness :
+  map (fun r => (orip (fst (fst r)), n_rail_calls (snd (fst r)), snd r))
+      (conv_v2 false f3_vf (fun _ _ _ => "m"%string) (fun o => o) "ri"%string "ro"%string
+               (mkCfg2 [] [7] false) init_state2 ["a"%string; "b"%string; "c"%string])
+  = [(false, 1, RMsg ["m"%string]); (true, 1, RMsg ["ro"%string]); (true, 0, RMsg ["m"%string])].
+Proof. vm_compute. reflexivity. Qed.
+
+(* same conversation on the repaired model *)
+Lemma v2_flag_repaired_witness :
+  map (fun r => (orip (fst (fst r)), n_rail_calls (snd (fst r)), snd r))
+      (conv_v2 true f3_vf (fun _ _ _ => "m"%string) (fun o => o) "ri"%string "ro"%string
+               (mkCfg2 [] [7] false) init_state2 ["a"%string; "b"%string; "c"%string])
+  = [(false, 1, RMsg ["m"%string]); (false, 1, RMsg ["ro"%string]); (false, 1, RMsg ["m"%string])].
+Proof. vm_compute. reflexivity. Qed.
+
+Lemma v2_flag_refuted :
+  exists vf llm value_of refusal_in refusal_out cf us,
+    map (fun r => (orip (fst (fst r)), n_rail_calls (snd (fst r)), snd r))
+        (conv_v2 false vf llm value_of refusal_in refusal_out cf init_state2 us)
+    = [(false, 1, RMsg ["m"%string]); (true, 1, RMsg [refusal_out]); (true, 0, RMsg ["m"%string])] /\
+    orails2 cf <> [].
+Proof.
+  exists f3_vf, (fun _ _ _ => "m"%string), (fun o => o), "ri"%string, "ro"%string, (mkCfg2 [] [7] false),
+         ["a"%string; "b"%string; "c"%string].
+  split; [exact v2_flag_refuted_witness|discriminate].
+Qed.
